@@ -966,6 +966,12 @@ def run(ctx):
         nsproof = None
     ns_proved = nsproof.run_part(ctx) if nsproof is not None else True
     ns_part(ctx, impl, model, corr, orc, proved and ns_proved, known)
+    # the fragment-comparison part (result tree fragments against every other type, whole transformations; props/C02_rtfcmp.py):
+    # it seeds its own random.Random from ctx.rng here, after every other stream
+    try:
+        importlib.import_module("props.C02_rtfcmp").run_part(ctx)
+    except ImportError:
+        pass
     new = [o for o in orc if not (o["known"] and o["known"] in known)]
     for o in orc:
         if o["known"] and o["known"] in known:
@@ -991,6 +997,9 @@ def replay(ctx, path):
     """feeds the case lines of a replay file to the rebuilt library; a case line preceded by
     '#expect <value>' is compared with that value (the one the Recommendation prescribes): exit status 1
     when any differs"""
+    rtfcmp = importlib.import_module("props.C02_rtfcmp")
+    if rtfcmp.is_replay(path):
+        return rtfcmp.replay(ctx, path)
     core.build_lib("plain")
     impl, ok_h, hlog = core.build_harness("xp", "plain")
     raw = open(path).read().split("\n")
